@@ -490,6 +490,8 @@ package middleware
 //@ ensures [C02:authorizer] calls(AZ) <= 1 && (calls(AZ) == 1 ==> recv(AZ,0) == old(route.Authorizer) && arg(AZ,0,0) == request && arg(AZ,0,1) == ret(AU,0,1) && ret(AU,0,0) && ret(AU,0,2) == nil)
 //@ ensures [C02:denied] calls(AZ) == 1 && ret(AZ,0,0) != nil ==> result0 == nil && result1 == nil && result2 != nil
 //@ ensures [C02:admits] calls(AU) == 1 && ret(AU,0,0) && ret(AU,0,2) == nil && ret(AU,0,1) != nil && (old(route.Authorizer) == nil || (calls(AZ) == 1 && ret(AZ,0,0) == nil)) ==> result2 == nil
+// an alternative without credentials (anonymous access allowed by the description) admits the request with no principal
+//@ ensures [C02:anonymous] calls(AU) == 1 && ret(AU,0,0) && ret(AU,0,2) == nil && ret(AU,0,1) == nil && calls(AA) == 1 && ret(AA,0,0) && (old(route.Authorizer) == nil || (calls(AZ) == 1 && ret(AZ,0,0) == nil)) ==> result2 == nil && result0 == nil && result1 != nil
 //@ ensures [C02:admitted] result2 == nil && calls(AU) == 1 ==> result0 == ret(AU,0,1) && result1 != nil && ret(AU,0,0) && ret(AU,0,2) == nil && (old(route.Authorizer) != nil ==> calls(AZ) == 1 && ret(AZ,0,0) == nil) && calls(AS) == 1
 
 // the security middleware: next (binding + handler) runs only if the route needs no
